@@ -949,4 +949,10 @@ theorem goodP_pstep {p : Proc} (hp : GoodP p) {o : POp} (ho : Harmless o) : Good
               show firstBase (step { c with log := [] } o).1.stopH 0 = none
               rw [this]; exact hb
 
+theorem goodP_prun {p : Proc} (hp : GoodP p) (ops : List POp) (h : ∀ o ∈ ops, Harmless o) : GoodP (prun p ops) := by
+  induction ops generalizing p with
+  | nil => exact hp
+  | cons o os ih =>
+    exact ih (goodP_pstep hp (h o List.mem_cons_self)) (fun x hx => h x (List.mem_cons_of_mem _ hx))
+
 end QmiModel.Context
